@@ -216,6 +216,9 @@ def m_len(I, args, kwargs):
     if isinstance(v, (bytes, str, tuple, list, dict, frozenset, set, bytearray, range)):
         return len(v)
     if isinstance(v, SSeq):
+        if I.config.get('len32', True) and not I.pure:
+            # modelling assumption (listed in every evidence file): byte strings are shorter than 4 GiB
+            I.fact(z3.Length(v.t) < 2 ** 32)
         return I.wrap_int(z3.Length(v.t))
     if isinstance(v, STup):
         return I.wrap_int(z3.Length(v.t))
@@ -1328,10 +1331,13 @@ def _(I, sv, args, kwargs):
     v = args[0]
     items = I.try_iter_concrete(v)
     if items is None:
-        if isinstance(v, GenVal):
-            from .gens2 import consume_generator
-            return consume_generator(I, v, 'join', sep=sv)
-        raise OutOfReach('bytes.join over symbolic iterable')
+        if isinstance(v, GenVal) and v.kind == 'genfn':
+            g = I.run_generator(v)
+            if isinstance(g, Opaque):
+                raise OutOfReach('bytes.join over a summarised generator')
+            items = I.try_iter_concrete(g)
+        if items is None:
+            raise OutOfReach('bytes.join over symbolic iterable')
     sep = I.seq_term(sv)
     parts = []
     for k, x in enumerate(items):
